@@ -324,6 +324,7 @@ func (m *Machine) crashScope(fr *frame, f Value) Value {
 	}()
 	m.crashArmed = false
 	if crashed {
+		m.rememberCrashFS() // model_fs_crashsnap.go
 		m.killOthers(nil)
 		// all descriptors are gone; locks, channels etc. belonged to the dead process
 		for k, v := range m.side {
